@@ -704,3 +704,13 @@ Proof.
     destruct (nth_in_or_default (Z.to_nat L) tab 0) as [Hin|Hd]; [|rewrite Hd; exact H0m].
     specialize (Hb _ Hin). apply andb_prop in Hb. destruct Hb as [_ B]. apply Z.leb_le in B. exact B.
 Qed.
+
+(** what the aligner finds is what the adapter classes report (match_to with its prefilter) *)
+Corollary found_is_reported thr ad read :
+  thr 0 = 0 -> (forall i, 0 <= i < zlen (a_seq ad) -> thr i <= thr (i + 1) <= thr i + 1) ->
+  (forall i, 1 <= i <= zlen (a_seq ad) -> thr i < i) -> (forall L, thr L <= thr (zlen (a_seq ad))) ->
+  ascii (a_seq ad) -> ascii read -> 1 <= a_min_overlap ad -> zlen (a_seq ad) < INDEL_COST_OFF ->
+  match_to thr ad read <> None -> match_to_prefiltered thr ad read <> None.
+Proof.
+  intros H0 Hstep Hlt Hb Has Har Hov Hbig Hm. rewrite (prefilter_no_change thr ad read H0 Hstep Hlt Hb Has Har Hov Hbig). exact Hm.
+Qed.
